@@ -23,14 +23,14 @@ theorem cnt_update' (m : Nat) (f : Nat → Bool) (i : Nat) (hi : i < m) (v : Boo
     cnt m (fun j => if j = i then v else f j) + b2n (f i) = cnt m f + b2n v := cnt_update m f i hi v
 
 /-- hypotheses on the matrix under which peeling is correct: entries outside the matrix are
-    zero, every column has weight at most 2 (a graph, dangling edges allowed), and two
-    different rows share at most one column (no parallel edges) -/
+    zero, every column has weight at most 2 (a multigraph, dangling and parallel edges allowed),
+    and two different rows share fewer than 256 columns (the `uint8` product `H @ H.T` of
+    `_build_tree` does not wrap to zero) -/
 structure GraphOK (H : Mat) : Prop where
   inRange : ∀ s q, hb H s q = true → s < H.length ∧ q < ncols H
   col2 : ∀ q s1 s2 s3, hb H s1 q = true → hb H s2 q = true → hb H s3 q = true →
     s1 = s2 ∨ s1 = s3 ∨ s2 = s3
-  simple : ∀ i j q q', i ≠ j → hb H i q = true → hb H j q = true → hb H i q' = true →
-    hb H j q' = true → q = q'
+  mult : ∀ i j, i ≠ j → cnt (ncols H) (fun q => hb H i q && hb H j q) < 256
 
 /-- `q` is a member qubit adjacent to both member stabilizers `p` and `c` -/
 def adjq (H : Mat) (stabs qubits : Nat → Bool) (p c q : Nat) : Bool :=
@@ -51,7 +51,8 @@ structure TreeOK (H : Mat) (stabs qubits : Nat → Bool) (root : Nat) (S0 : Nat 
 def parOf (m : Nat) (S0 : Nat → Nat → Bool) (c : Nat) : Nat :=
   ((List.range m).filter fun p => S0 p c).headD 0
 
-/-- the member qubit shared by `p` and `c` as the code finds it -/
+/-- the member qubit shared by `p` and `c` as the code finds it: the first one
+    (`shared.argmax(axis=1)`, `firstShared` of the model) -/
 def eOf (H : Mat) (stabs qubits : Nat → Bool) (p c : Nat) : Nat :=
   ((List.range (ncols H)).filter fun q => adjq H stabs qubits p c q).headD 0
 
@@ -68,7 +69,10 @@ structure PInv (H : Mat) (stabs qubits : Nat → Bool) (S0 : Nat → Nat → Boo
   even : cnt H.length st.syn % 2 = 0
   corr_nodup : st.corr.Nodup
   corr_removed : ∀ q, q ∈ st.corr → ∃ p c, S0 p c = true ∧ al c = false ∧
-    adjq H stabs qubits p c q = true
+    q = eOf H stabs qubits p c
+
+theorem firstShared_eq_eOf (H : Mat) (stabs qubits : Nat → Bool) (p c : Nat) :
+    firstShared H stabs qubits p c = eOf H stabs qubits p c := rfl
 
 /-! ### list facts -/
 
